@@ -4,6 +4,7 @@ import PyGam.Proofs.SplineShapeRows
 import Mathlib.Algebra.Order.Ring.Defs
 import Mathlib.Tactic.Linarith
 import Mathlib.Tactic.Positivity
+import PyGam.Gen.Tables
 /-!
 # C05 — shape constraints (coefficient level)
 
@@ -212,5 +213,16 @@ end function_level
 /-- non-vacuity: c = (1,3,2,5) violates monotone-increasing once, by 1 -/
 example : quadForm 4 (monoPen (α := Int) true 4 (fun k => [1,3,2,5].getD k 0)) (fun k => [1,3,2,5].getD k 0) = 1 := by
   decide
+
+/-! ### tie to the source by translation -/
+
+/-- the soft-constraint strength is `1e9`, the conditioning ridge starts at `1e-3` and is capped at `1e-1` -/
+theorem gen_constraint_strength :
+    Gen.constraintLam = some (mkRat 1000000000 1) ∧ Gen.constraintL2 = some (mkRat 1 1000) ∧ Gen.constraintL2Max = some (mkRat 1 10) := by
+  decide +kernel
+
+/-- the constraint registry of the source is the one modelled by `ConKind` -/
+theorem gen_constraint_names :
+    Gen.constraintNames = some ["concave", "convex", "monotonic_dec", "monotonic_inc", "none"] := by decide
 
 end PyGam.C05
